@@ -139,8 +139,7 @@ func registerIntrinsics(p *Program) {
 		label := constStr(a[0], "verif.String label")
 		max := constInt(a[1], "verif.String maxLen")
 		v := ex.Fresh("in!"+label, SStr)
-		ex.Inputs = append(ex.Inputs, v)
-		ex.InputLbl[v.ID] = v.S[3:]
+		ex.declareInput(v, v.S[3:])
 		ex.addPC(Le(StrLen(v), IntC(max)))
 		return v
 	}
@@ -148,8 +147,7 @@ func registerIntrinsics(p *Program) {
 		label := constStr(a[0], "verif.StringN label")
 		n := constInt(a[1], "verif.StringN len")
 		v := ex.Fresh("in!"+label, SStr)
-		ex.Inputs = append(ex.Inputs, v)
-		ex.InputLbl[v.ID] = v.S[3:]
+		ex.declareInput(v, v.S[3:])
 		ex.addPC(Eq(StrLen(v), IntC(n)))
 		return v
 	}
@@ -163,15 +161,13 @@ func registerIntrinsics(p *Program) {
 			v = ex.Fresh("in!"+label, SInt)
 			ex.Assume(And(Le(lo, v), Le(v, hi)))
 		}
-		ex.Inputs = append(ex.Inputs, v)
-		ex.InputLbl[v.ID] = v.S[3:]
+		ex.declareInput(v, v.S[3:])
 		return v
 	}
 	I[verifPkg+".Bool"] = func(ex *Exec, fr *frame, fn *ssa.Function, a []Value) Value {
 		label := constStr(a[0], "verif.Bool label")
 		v := ex.Fresh("in!"+label, SBool)
-		ex.Inputs = append(ex.Inputs, v)
-		ex.InputLbl[v.ID] = v.S[3:]
+		ex.declareInput(v, v.S[3:])
 		return v
 	}
 	I[verifPkg+".Choice"] = func(ex *Exec, fr *frame, fn *ssa.Function, a []Value) Value {
@@ -183,8 +179,7 @@ func registerIntrinsics(p *Program) {
 		ex.counters["choice!"+label] = k + 1
 		// record as pseudo-input for replay
 		v := Var(fmt.Sprintf("ch!%s#%d", label, k), SInt)
-		ex.Inputs = append(ex.Inputs, v)
-		ex.InputLbl[v.ID] = fmt.Sprintf("choice:%s#%d", label, k)
+		ex.declareInput(v, fmt.Sprintf("choice:%s#%d", label, k))
 		ex.addPC(Eq(v, IntC(int64(c))))
 		return IntC(int64(c))
 	}
@@ -209,14 +204,6 @@ func registerIntrinsics(p *Program) {
 		}
 		return BoolC(r != Unsat)
 	}
-	I[verifPkg+".Witness"] = func(ex *Exec, fr *frame, fn *ssa.Function, a []Value) Value {
-		// Witness(c, label): record that label is reachable with c satisfiable (vacuity guard)
-		r, _ := ex.S.CheckSat([]*Term{tstr(a[0])}, nil)
-		if r == Sat {
-			ex.Reached["witness:"+constStr(a[1], "label")]++
-		}
-		return nil
-	}
 	I[verifPkg+".UFStr"] = func(ex *Exec, fr *frame, fn *ssa.Function, a []Value) Value {
 		name := constStr(a[0], "UF name")
 		args := strSliceOf(a[1])
@@ -237,8 +224,7 @@ func registerIntrinsics(p *Program) {
 		label := constStr(a[0], "label")
 		n := tstr(a[1])
 		v := ex.Fresh("fresh!"+label, SStr)
-		ex.Inputs = append(ex.Inputs, v)
-		ex.InputLbl[v.ID] = v.S
+		ex.declareInput(v, v.S)
 		ex.addPC(Eq(StrLen(v), n))
 		return v
 	}
@@ -408,8 +394,7 @@ func registerIntrinsics(p *Program) {
 			return Tuple{IntC(0), nilError}
 		}
 		v := ex.Fresh("rand", SStr)
-		ex.Inputs = append(ex.Inputs, v)
-		ex.InputLbl[v.ID] = v.S
+		ex.declareInput(v, v.S)
 		ex.addPC(Eq(StrLen(v), buf.Len))
 		buf.A.S = writeRegion(buf.A.S, buf.Off, buf.Len, v)
 		return Tuple{buf.Len, nilError}
@@ -493,6 +478,7 @@ func registerIntrinsics(p *Program) {
 	}
 
 	registerTimeIntrinsics(p)
+	registerExtras(p)
 	registerGoStubs(p)
 }
 
